@@ -11,7 +11,7 @@ def gen(ctx):
 def run(ctx, proofs):
     r = propeng.run(ctx, proofs, [("-", "-")], check_vals=True, check_degs=False,
                     n_quick=1000, n_thorough=20000, props=("C06", "C20"))
-    propeng.verdict(ctx, proofs, r, kinds=("value",), known_classes=(),
+    propeng.verdict(ctx, proofs, r, kinds=("value", "finding"), known_classes=(),
                     extra_cov={"open_statements": []})
 
 
